@@ -82,7 +82,9 @@ CLAIMED = {
     "C06": dict(
         text="Kernel-checked: only finishStats produces chunks; a successful finish sets finished/finalized; afterwards every finish returns AlreadyFinished with no chunk and every write returns an "
              "error leaving the whole state unchanged; a failed finalize also leaves finalized set (no second header). Statistics: frame counts are the queue lengths, bytes = previous count + total "
-             "chunk length, duration = maxEndPts/90000 where maxEndPts is proved to be the maximum over all samples of pts + duration. Correspondence with a recording sink tagging bytes per call.",
+             "chunk length, duration = maxEndPts/90000 where maxEndPts is proved to be the maximum over all samples of pts + duration; the rounding clause: for every maxEndPts below 2^53 ticks the double "
+             "`maxEndPts as f64 / 90000.0` (soft-float model), read back as ticks, is within one tick of maxEndPts (C06_duration_within_one_tick: exactness of the integer conversion, half-unit rounding of the division, "
+             "exponent <= -16), with a kernel-checked counterexample beyond 2^53 (the recorded finding). Correspondence with a recording sink tagging bytes per call.",
         note=TB + "Found and fixed in /repo: duration used the last sample in decode order (too short for reordered streams). Known finding stats-duration-f64-precision: an f64 of seconds cannot be within one tick beyond 2^53 ticks.",
         technique="Lean 4 proof (state-machine lemmas, max over fold) + correspondence check",
         ref="DESIGN.md section 5 C06"),
